@@ -266,3 +266,5 @@ func sortedKeys[V any](m map[string]V) []string {
 
 // constructOf names a function-level construct.
 func (c *Ctx) fn(f *ssa.Function) string { return c.P.FuncName(f) }
+
+// lockDiscipline is defined in rules_locks.go
